@@ -221,6 +221,15 @@ class HistGen:
                     continue
             b = sh.bucket(cur_path)
             c = r.random()
+            if r.random() < 0.03:
+                # handles obtained through the buckets() iterator behave like any other handle
+                subs = sorted(k for k, v in b.items.items() if isinstance(v, Shadow))
+                hb = self.next_h
+                self.emit("iterb %d %d %d" % (t, hb, cur_h))
+                self.next_h += len(subs) + 1
+                for i, name in enumerate(subs):
+                    handles[hb + i] = (cur_path + (name,), True)
+                continue
             if c < self.p["p_bucket_ops"]:
                 # bucket-level op on the current bucket
                 sub = [k for k, v in b.items.items() if isinstance(v, Shadow)]
@@ -571,6 +580,29 @@ def gen_c06(seed, n, pagesize=1024):
                 g.emit("gocb %d %d 0 %s" % (t, g.next_h + 1, hx(b"ro-new")))
                 g.emit("delb %d 0 %s" % (t, hx(paths[0][0] if paths else b"none")))
                 g.next_h += 2
+                # handles yielded by the iterators must be read-only too
+                roots = sorted(k for k, v in g.committed.items.items() if isinstance(v, Shadow))
+                hb = g.next_h
+                g.emit("iterb %d %d 0" % (t, hb))
+                g.next_h += len(roots) + 1
+                for i, name in enumerate(roots[:3]):
+                    hh = hb + i
+                    g.emit("put %d %d %s %s" % (t, hh, hx(b"ro-iter"), hx(b"x")))
+                    g.emit("mkb %d %d %d %s" % (t, g.next_h, hh, hx(b"ro-iter-b")))
+                    g.emit("gocb %d %d %d %s" % (t, g.next_h + 1, hh, hx(b"ro-iter-b")))
+                    g.next_h += 2
+                    sub = g.committed.items[name]
+                    ks = sorted(sub.items.keys())
+                    if ks:
+                        g.emit("del %d %d %s" % (t, hh, hx(ks[0])))
+                        g.emit("delb %d %d %s" % (t, hh, hx(ks[0])))
+                    subs = sorted(k for k, v in sub.items.items() if isinstance(v, Shadow))
+                    hb2 = g.next_h
+                    g.emit("iterb %d %d %d" % (t, hb2, hh))
+                    g.next_h += len(subs) + 1
+                    if subs:
+                        g.emit("put %d %d %s %s" % (t, hb2, hx(b"ro-iter2"), hx(b"y")))
+                    g.emit("scan %d %d" % (t, hh))
                 for p in r.sample(paths, min(3, len(paths))):
                     hp = 0
                     for name in p:
@@ -604,6 +636,33 @@ def gen_c06(seed, n, pagesize=1024):
                 g.write_tx(r.randrange(5, 60))
                 g.emit("file")
                 g.emit("fhash")
+                g.verify()
+        if c % 3 == 0:
+            # a commit that fails (file extension refused): it must change nothing, in the file or in memory
+            t = g.next_tx
+            g.next_tx += 1
+            h = g.next_h
+            g.next_h += 1
+            g.emit("fhash")
+            g.emit("begin %d w" % t)
+            g.emit("gocb %d %d 0 %s" % (t, h, hx(b"too-big")))
+            for j in range(4):
+                g.emit("put %d %d %s %s" % (t, h, hx(b"huge%d" % j), vtok(bytes([70 + j]) * (3 * 1024 * 1024))))
+            paths = [k for k, v in g.committed.items.items() if isinstance(v, Shadow)]
+            if paths:
+                g.emit("delb %d 0 %s" % (t, hx(sorted(paths)[0])))
+            g.emit("limit 4096")
+            g.emit("commit %d" % t)
+            g.emit("limit inf")
+            g.emit("begin %d r" % g.next_tx)
+            g.emit("dump %d" % g.next_tx)
+            g.emit("drop %d" % g.next_tx)
+            g.next_tx += 1
+            g.emit("fhash")
+            g.p["p_drop"] = 0.0
+            for _ in range(3):
+                g.write_tx(r.randrange(5, 30))
+                g.emit("file")
                 g.verify()
         g.emit("dbcheck")
         g.emit("close")
